@@ -1,5 +1,7 @@
 //go:build verif
 
+//verif:dst notations/jschema/verif_cmap.go
+
 package jschema
 
 // Verification hook H5 (never part of /repo; injected with go build -overlay): a driver for the
